@@ -885,6 +885,7 @@ func (req *IdpAuthnRequest) MakeAssertionEl() error {
 	var signedAssertionBuf []byte
 	{
 		doc := etree.NewDocument()
+		doc.WriteSettings = wireWriteSettings
 		doc.SetRoot(signedAssertionEl)
 		signedAssertionBuf, err = doc.WriteToBytes()
 		if err != nil {
@@ -929,6 +930,7 @@ func (req *IdpAuthnRequest) PostBinding() (IdpAuthnRequestForm, error) {
 	}
 
 	doc := etree.NewDocument()
+	doc.WriteSettings = wireWriteSettings
 	doc.SetRoot(req.ResponseEl)
 	responseBuf, err := doc.WriteToBytes()
 	if err != nil {
@@ -1028,6 +1030,7 @@ func (req *IdpAuthnRequest) getSPEncryptionCert() (*x509.Certificate, error) {
 // This is a hack -- it first serializes the element, then uses xml.Unmarshal.
 func unmarshalEtreeHack(el *etree.Element, v interface{}) error {
 	doc := etree.NewDocument()
+	doc.WriteSettings = wireWriteSettings
 	doc.SetRoot(el)
 	buf, err := doc.WriteToBytes()
 	if err != nil {
